@@ -129,3 +129,39 @@ Example all_falsy_example :
   all_falsy ev [(ELit (VBool false), []); (ELit VNil, [])] (fresh_ctx 30 [] []) /\
   ev (fresh_ctx 30 [] []) (ELit (VInt 1)) = EOk (VInt 1) /\ is_truthy (VInt 1) = true.
 Proof. cbn. repeat split; eexists; split; reflexivity. Qed.
+
+(** * A macro call is isolated from its caller *)
+
+(** the parameter list of [m] with the call's arguments bound to it *)
+Definition macro_bound (m : macro) (args : list expr) (kwargs : list (str * expr))
+  : list (str * option expr) :=
+  fold_left (fun acc kw => dict_set (fst kw) (Some (snd kw)) acc) kwargs
+            (bind_positional (m_params m) args).
+
+(** What a call writes depends on the caller's context only through the macro
+    definition itself, the values of the arguments (and of the defaults of the
+    parameters left out), the root globals, the copy depth, the depth limit and
+    the template name: not through locals, counters, loop variables, block
+    scopes, cycles or the other macros. *)
+Theorem call_tag_isolated g ld fuel name args kwargs c1 c2 b :
+  assoc name (macros c1) = assoc name (macros c2) ->
+  root_globals c1 = root_globals c2 ->
+  copy_depth c1 = copy_depth c2 ->
+  dlimit c1 = dlimit c2 ->
+  tname c1 = tname c2 ->
+  (forall m, assoc name (macros c2) = Some m ->
+     eval_bound (eval fuel) c1 (macro_bound m args kwargs) =
+     eval_bound (eval fuel) c2 (macro_bound m args kwargs)) ->
+  let r1 := render g ld (S fuel) (NCall name args kwargs) c1 b in
+  let r2 := render g ld (S fuel) (NCall name args kwargs) c2 b in
+  st r1 = st r2 /\ bf r1 = bf r2.
+Proof.
+  intros Hm Hr Hd Hl Ht Ha. simpl. unfold render_call. rewrite Hm.
+  destruct (assoc name (macros c2)) as [m|]; simpl; [|auto].
+  destruct (Nat.ltb _ _); simpl; [auto|].
+  destruct (negb _); simpl; [auto|].
+  specialize (Ha m eq_refl). unfold macro_bound in Ha. rewrite Ha.
+  destruct (eval_bound (eval fuel) c2 _) as [r|nsargs]; simpl; [auto|].
+  unfold copy_isolated. rewrite Hr, Hd, Hl, Ht.
+  destruct (depth_limit g <? copy_depth c2)%Z; simpl; auto.
+Qed.
